@@ -109,4 +109,268 @@ example (f1 : Nat) (as1 : List Term) (e1 : VM.End)
   vm_refines_sld_cut progC queryC2 5
     ⟨fragC.clauses, by decide +kernel, by decide +kernel, by decide +kernel⟩ (by decide) f1 40 as1 _ e1 _ h1 sldC2
 
+/-! ## stage 3a: `call/1`
+
+      p(a).  p(b).
+      q(X) :- G = p(X), call(G).           % the goal is built at run time
+      s(X) :- call((p(X), !)).             % a cut inside call/1 is local to the call
+      s(z).
+      ?- q(X).            two answers a, b
+      ?- s(X).            two answers a, z   (the cut commits p/1 only, not s/1)
+
+  `#eval Driver.C01.vmLine ⟨5, q (v 0), progK⟩` = `specLine … false` = "a C1:q Aa ; a C1:q Ab ; end exhausted",
+  `#eval Driver.C01.vmLine ⟨5, s (v 0), progK⟩` = `specLine … false` = "a C1:s Aa ; a C1:s Az ; end exhausted". -/
+
+def q (a : Term) : Term := .app "q" (.cons a .nil)
+def s (a : Term) : Term := .app "s" (.cons a .nil)
+def eq (a b : Term) : Term := .app "=" (.cons a (.cons b .nil))
+def call1 (a : Term) : Term := .app "call" (.cons a .nil)
+
+def progK : List Term :=
+  [p (.atom "a"), p (.atom "b"),
+   SLD.rule (q (v 0)) (conj (eq (v 1) (p (v 0))) (call1 (v 1))),
+   SLD.rule (s (v 0)) (call1 (conj (p (v 0)) (.atom "!"))),
+   s (.atom "z")]
+
+theorem fragK1 : CallFrag progK (q (v 0)) :=
+  ⟨by decide +kernel, by decide +kernel, by decide +kernel, (fun _ h => by cases h), by decide +kernel⟩
+
+theorem fragK2 : CallFrag progK (s (v 0)) :=
+  ⟨fragK1.clauses, by decide +kernel, by decide +kernel, (fun _ h => by cases h), by decide +kernel⟩
+
+theorem sldK1 : SLD.solveQuery 40 progK (q (v 0)) 5 = some ([q (.atom "a"), q (.atom "b")], .exhausted) := by
+  decide +kernel
+
+theorem sldK2 : SLD.solveQuery 40 progK (s (v 0)) 5 = some ([s (.atom "a"), s (.atom "z")], .exhausted) := by
+  decide +kernel
+
+/-- `G = p(X), call(G)`: the called goal is a variable of the clause, bound at call time -/
+example (f1 : Nat) (as1 : List Term) (e1 : VM.End)
+    (h1 : VM.runQuery f1 progK (Driver.C01.shiftVars 10 (q (v 0))) 5 = some (as1, e1))
+    (hcalls : CallsOK true f1 progK (q (v 0)) 5) :
+    Forall2 (AnsRel (Driver.C01.shiftVars 10 (q (v 0)))) as1 [q (.atom "a"), q (.atom "b")] ∧
+      endAgree e1 .exhausted :=
+  vm_refines_sld_call progK _ 5 fragK1 (by decide) f1 40 as1 _ e1 _ h1 sldK1 hcalls
+
+/-- the cut inside `call/1` is local: the second clause of `s/1` is still tried -/
+example (f1 : Nat) (as1 : List Term) (e1 : VM.End)
+    (h1 : VM.runQuery f1 progK (Driver.C01.shiftVars 10 (s (v 0))) 5 = some (as1, e1))
+    (hcalls : CallsOK true f1 progK (s (v 0)) 5) :
+    Forall2 (AnsRel (Driver.C01.shiftVars 10 (s (v 0)))) as1 [s (.atom "a"), s (.atom "z")] ∧
+      endAgree e1 .exhausted :=
+  vm_refines_sld_call progK _ 5 fragK2 (by decide) f1 40 as1 _ e1 _ h1 sldK2 hcalls
+
+/-! ## stage 3b: if-then-else, if-then
+
+      q(a).  q(b).
+      pick(X) :- ( q(X) -> true ; X = none ).          % the condition is solved once
+      t(X) :- ( true -> q(X), ! ; true ).              % a cut inside a branch is local to the branch
+      t(z).
+      w(X) :- ( q(X) -> true ), q(_).
+      w(z).
+      ?- pick(X).      one answer a
+      ?- t(X).         two answers a, z
+      ?- w(X).         three answers a, a, z
+
+  (`#eval Driver.C01.vmLine` = `specLine … false` on all three.) -/
+
+def pick (a : Term) : Term := .app "pick" (.cons a .nil)
+def t (a : Term) : Term := .app "t" (.cons a .nil)
+def w (a : Term) : Term := .app "w" (.cons a .nil)
+
+def progI : List Term :=
+  [q (.atom "a"), q (.atom "b"),
+   SLD.rule (pick (v 0)) (SLD.ifThenElse (q (v 0)) (.atom "true") (eq (v 0) (.atom "none"))),
+   SLD.rule (t (v 0)) (SLD.ifThenElse (.atom "true") (conj (q (v 0)) (.atom "!")) (.atom "true")),
+   t (.atom "z"),
+   SLD.rule (w (v 0)) (conj (SLD.mk2 "->" (q (v 0)) (.atom "true")) (q (v 1))),
+   w (.atom "z")]
+
+theorem fragI1 : CtlFrag progI (pick (v 0)) :=
+  ⟨by decide +kernel, by decide +kernel, by decide +kernel, (fun _ h => by cases h), by decide +kernel⟩
+
+theorem sldI1 : SLD.solveQuery 40 progI (pick (v 0)) 5 = some ([pick (.atom "a")], .exhausted) := by
+  decide +kernel
+
+theorem sldI2 : SLD.solveQuery 40 progI (t (v 0)) 5 = some ([t (.atom "a"), t (.atom "z")], .exhausted) := by
+  decide +kernel
+
+theorem sldI3 : SLD.solveQuery 40 progI (w (v 0)) 5 =
+    some ([w (.atom "a"), w (.atom "a"), w (.atom "z")], .exhausted) := by
+  decide +kernel
+
+example (f1 : Nat) (as1 : List Term) (e1 : VM.End)
+    (h1 : VM.runQuery f1 progI (Driver.C01.shiftVars 10 (pick (v 0))) 5 = some (as1, e1))
+    (hcalls : CallsOK true f1 progI (pick (v 0)) 5) :
+    Forall2 (AnsRel (Driver.C01.shiftVars 10 (pick (v 0)))) as1 [pick (.atom "a")] ∧ endAgree e1 .exhausted :=
+  vm_refines_sld_ctl progI _ 5 fragI1 (by decide) f1 40 as1 _ e1 _ h1 sldI1 hcalls
+
+/-- the cut inside the then-branch is local: the second clause of `t/1` is still tried -/
+example (f1 : Nat) (as1 : List Term) (e1 : VM.End)
+    (h1 : VM.runQuery f1 progI (Driver.C01.shiftVars 10 (t (v 0))) 5 = some (as1, e1))
+    (hcalls : CallsOK true f1 progI (t (v 0)) 5) :
+    Forall2 (AnsRel (Driver.C01.shiftVars 10 (t (v 0)))) as1 [t (.atom "a"), t (.atom "z")] ∧
+      endAgree e1 .exhausted :=
+  vm_refines_sld_ctl progI _ 5
+    ⟨fragI1.clauses, by decide +kernel, by decide +kernel, (fun _ h => by cases h), by decide +kernel⟩
+    (by decide) f1 40 as1 _ e1 _ h1 sldI2 hcalls
+
+example (f1 : Nat) (as1 : List Term) (e1 : VM.End)
+    (h1 : VM.runQuery f1 progI (Driver.C01.shiftVars 10 (w (v 0))) 5 = some (as1, e1))
+    (hcalls : CallsOK true f1 progI (w (v 0)) 5) :
+    Forall2 (AnsRel (Driver.C01.shiftVars 10 (w (v 0)))) as1 [w (.atom "a"), w (.atom "a"), w (.atom "z")] ∧
+      endAgree e1 .exhausted :=
+  vm_refines_sld_ctl progI _ 5
+    ⟨fragI1.clauses, by decide +kernel, by decide +kernel, (fun _ h => by cases h), by decide +kernel⟩
+    (by decide) f1 40 as1 _ e1 _ h1 sldI3 hcalls
+
+/-! ## stage 3b: once/1
+
+      q(a).  q(b).
+      first(X) :- once(q(X)).
+      u(X, Y) :- once(q(X)), q(Y).        % the goals after once/1 are not affected by its cut
+      u(z, z).
+      ?- first(X).      one answer a
+      ?- u(X, Y).       three answers (a,a), (a,b), (z,z)
+
+  (`#eval Driver.C01.vmLine` = `specLine … false` on both.) -/
+
+def first (a : Term) : Term := .app "first" (.cons a .nil)
+def once (a : Term) : Term := .app "once" (.cons a .nil)
+def u (a b : Term) : Term := .app "u" (.cons a (.cons b .nil))
+
+def progO : List Term :=
+  [q (.atom "a"), q (.atom "b"),
+   SLD.rule (first (v 0)) (once (q (v 0))),
+   SLD.rule (u (v 0) (v 1)) (conj (once (q (v 0))) (q (v 1))),
+   u (.atom "z") (.atom "z")]
+
+theorem fragO1 : CtlFrag progO (first (v 0)) :=
+  ⟨by decide +kernel, by decide +kernel, by decide +kernel, (fun _ h => by cases h), by decide +kernel⟩
+
+theorem sldO1 : SLD.solveQuery 40 progO (first (v 0)) 5 = some ([first (.atom "a")], .exhausted) := by
+  decide +kernel
+
+theorem sldO2 : SLD.solveQuery 40 progO (u (v 0) (v 1)) 5 =
+    some ([u (.atom "a") (.atom "a"), u (.atom "a") (.atom "b"), u (.atom "z") (.atom "z")], .exhausted) := by
+  decide +kernel
+
+example (f1 : Nat) (as1 : List Term) (e1 : VM.End)
+    (h1 : VM.runQuery f1 progO (Driver.C01.shiftVars 10 (first (v 0))) 5 = some (as1, e1))
+    (hcalls : CallsOK true f1 progO (first (v 0)) 5) :
+    Forall2 (AnsRel (Driver.C01.shiftVars 10 (first (v 0)))) as1 [first (.atom "a")] ∧ endAgree e1 .exhausted :=
+  vm_refines_sld_ctl progO _ 5 fragO1 (by decide) f1 40 as1 _ e1 _ h1 sldO1 hcalls
+
+example (f1 : Nat) (as1 : List Term) (e1 : VM.End)
+    (h1 : VM.runQuery f1 progO (Driver.C01.shiftVars 10 (u (v 0) (v 1))) 5 = some (as1, e1))
+    (hcalls : CallsOK true f1 progO (u (v 0) (v 1)) 5) :
+    Forall2 (AnsRel (Driver.C01.shiftVars 10 (u (v 0) (v 1)))) as1
+      [u (.atom "a") (.atom "a"), u (.atom "a") (.atom "b"), u (.atom "z") (.atom "z")] ∧ endAgree e1 .exhausted :=
+  vm_refines_sld_ctl progO _ 5
+    ⟨fragO1.clauses, by decide +kernel, by decide +kernel, (fun _ h => by cases h), by decide +kernel⟩
+    (by decide) f1 40 as1 _ e1 _ h1 sldO2 hcalls
+
+/-! ## stage 3b: `\\+`/1
+
+      q(a).  q(b).  s(a).  s(c).
+      notin(X) :- \\+ q(X).
+      dd(X) :- s(X), \\+ q(X).
+      ?- notin(c).     one answer          ?- notin(a).   no answer
+      ?- dd(X).        one answer c
+
+  (`#eval Driver.C01.vmLine` = `specLine … false` on all three.) -/
+
+def s' (a : Term) : Term := .app "s" (.cons a .nil)
+def notin (a : Term) : Term := .app "notin" (.cons a .nil)
+def dd (a : Term) : Term := .app "dd" (.cons a .nil)
+def neg (a : Term) : Term := .app "\\+" (.cons a .nil)
+
+def progN : List Term :=
+  [q (.atom "a"), q (.atom "b"), s' (.atom "a"), s' (.atom "c"),
+   SLD.rule (notin (v 0)) (neg (q (v 0))),
+   SLD.rule (dd (v 0)) (conj (s' (v 0)) (neg (q (v 0))))]
+
+theorem fragN1 : CtlFrag progN (notin (.atom "c")) :=
+  ⟨by decide +kernel, by decide +kernel, by decide +kernel, (fun _ h => by cases h), by decide +kernel⟩
+
+theorem sldN1 : SLD.solveQuery 40 progN (notin (.atom "c")) 5 = some ([notin (.atom "c")], .exhausted) := by
+  decide +kernel
+
+theorem sldN2 : SLD.solveQuery 40 progN (notin (.atom "a")) 5 = some ([], .exhausted) := by
+  decide +kernel
+
+theorem sldN3 : SLD.solveQuery 60 progN (dd (v 0)) 5 = some ([dd (.atom "c")], .exhausted) := by
+  decide +kernel
+
+example (f1 : Nat) (as1 : List Term) (e1 : VM.End)
+    (h1 : VM.runQuery f1 progN (Driver.C01.shiftVars 10 (notin (.atom "c"))) 5 = some (as1, e1))
+    (hcalls : CallsOK true f1 progN (notin (.atom "c")) 5) :
+    Forall2 (AnsRel (Driver.C01.shiftVars 10 (notin (.atom "c")))) as1 [notin (.atom "c")] ∧ endAgree e1 .exhausted :=
+  vm_refines_sld_ctl progN _ 5 fragN1 (by decide) f1 40 as1 _ e1 _ h1 sldN1 hcalls
+
+example (f1 : Nat) (as1 : List Term) (e1 : VM.End)
+    (h1 : VM.runQuery f1 progN (Driver.C01.shiftVars 10 (notin (.atom "a"))) 5 = some (as1, e1))
+    (hcalls : CallsOK true f1 progN (notin (.atom "a")) 5) :
+    Forall2 (AnsRel (Driver.C01.shiftVars 10 (notin (.atom "a")))) as1 [] ∧ endAgree e1 .exhausted :=
+  vm_refines_sld_ctl progN _ 5
+    ⟨fragN1.clauses, by decide +kernel, by decide +kernel, (fun _ h => by cases h), by decide +kernel⟩
+    (by decide) f1 40 as1 _ e1 _ h1 sldN2 hcalls
+
+example (f1 : Nat) (as1 : List Term) (e1 : VM.End)
+    (h1 : VM.runQuery f1 progN (Driver.C01.shiftVars 10 (dd (v 0))) 5 = some (as1, e1))
+    (hcalls : CallsOK true f1 progN (dd (v 0)) 5) :
+    Forall2 (AnsRel (Driver.C01.shiftVars 10 (dd (v 0)))) as1 [dd (.atom "c")] ∧ endAgree e1 .exhausted :=
+  vm_refines_sld_ctl progN _ 5
+    ⟨fragN1.clauses, by decide +kernel, by decide +kernel, (fun _ h => by cases h), by decide +kernel⟩
+    (by decide) f1 60 as1 _ e1 _ h1 sldN3 hcalls
+
+/-! ## stage 3b: disjunction at the top level of a clause body, of a called goal and of the query
+
+      q(a).  q(b).
+      t(X) :- ( q(X), ! ; X = y ; X = z ).      % three alternatives; the cut cuts t/1
+      t(w).
+      e(X) :- call(( q(X) ; X = z )).            % `call/1` of a disjunction
+      ?- t(X).               one answer a
+      ?- e(X).               three answers a, b, z
+      ?- ( q(X) ; X = z ).   three answers
+
+  (`#eval Driver.C01.vmLine` = `specLine … false` on all three.) -/
+
+def disj (a b : Term) : Term := .app ";" (.cons a (.cons b .nil))
+def tt (a : Term) : Term := .app "tt" (.cons a .nil)
+def ee (a : Term) : Term := .app "ee" (.cons a .nil)
+
+def progE : List Term :=
+  [q (.atom "a"), q (.atom "b"),
+   SLD.rule (tt (v 0)) (disj (conj (q (v 0)) (.atom "!")) (disj (eq (v 0) (.atom "y")) (eq (v 0) (.atom "z")))),
+   tt (.atom "w"),
+   SLD.rule (ee (v 0)) (call1 (disj (q (v 0)) (eq (v 0) (.atom "z"))))]
+
+theorem fragE1 : CtlFrag progE (tt (v 0)) :=
+  ⟨by decide +kernel, by decide +kernel, by decide +kernel, (fun _ h => by cases h), by decide +kernel⟩
+
+theorem sldE1 : SLD.solveQuery 40 progE (tt (v 0)) 5 = some ([tt (.atom "a")], .exhausted) := by decide +kernel
+
+theorem sldE2 : SLD.solveQuery 40 progE (ee (v 0)) 5 =
+    some ([ee (.atom "a"), ee (.atom "b"), ee (.atom "z")], .exhausted) := by decide +kernel
+
+example (f1 : Nat) (as1 : List Term) (e1 : VM.End)
+    (h1 : VM.runQuery f1 progE (Driver.C01.shiftVars 10 (tt (v 0))) 5 = some (as1, e1))
+    (hcalls : CallsOK true f1 progE (tt (v 0)) 5) :
+    Forall2 (AnsRel (Driver.C01.shiftVars 10 (tt (v 0)))) as1 [tt (.atom "a")] ∧ endAgree e1 .exhausted :=
+  vm_refines_sld_ctl progE _ 5 fragE1 (by decide) f1 40 as1 _ e1 _ h1 sldE1 hcalls
+
+example (f1 : Nat) (as1 : List Term) (e1 : VM.End)
+    (h1 : VM.runQuery f1 progE (Driver.C01.shiftVars 10 (ee (v 0))) 5 = some (as1, e1))
+    (hcalls : CallsOK true f1 progE (ee (v 0)) 5) :
+    Forall2 (AnsRel (Driver.C01.shiftVars 10 (ee (v 0)))) as1 [ee (.atom "a"), ee (.atom "b"), ee (.atom "z")] ∧
+      endAgree e1 .exhausted :=
+  vm_refines_sld_ctl progE _ 5
+    ⟨fragE1.clauses, by decide +kernel, by decide +kernel, (fun _ h => by cases h), by decide +kernel⟩
+    (by decide) f1 40 as1 _ e1 _ h1 sldE2 hcalls
+
+/-- a disjunctive query -/
+example : CtlFrag progE (disj (q (v 0)) (eq (v 0) (.atom "z"))) :=
+  ⟨fragE1.clauses, by decide +kernel, by decide +kernel, (fun _ h => by cases h), by decide +kernel⟩
+
 end PrologVerif.Refine.Example
